@@ -6,7 +6,7 @@
    (as the 32-bit word -errno followed by any payload). *)
 From Coq Require Import List NArith ZArith Bool.
 Import ListNotations.
-Require Import Mach AuditConsts MsgTypes AuditClient ClientProofs.
+Require Import Mach AuditConsts MsgTypes AuditClient ClientProofs ChkClient ClientAckProofs.
 Open Scope N_scope.
 
 (* getReply finds the message addressed to its request through all admissible noise *)
@@ -67,7 +67,25 @@ Example C08_example :
   result_of (snd (cstep cinit {| rscript := script; sfaults := [] |} (ODeleteRule []))) = RFail (EErrno 1).
 Proof. vm_compute. reflexivity. Qed.
 
+(* "returns nil exactly when the kernel acknowledged that request with errno 0", the only-if half, for EVERY kernel script
+   (no fault-model hypothesis: receive failures of any kind, silence, malformed and foreign replies included): a reply
+   that passes the ACK check, a Set* in WaitForReply mode that returns nil, an AddRule / DeleteRule that returns nil - each
+   implies that the script holds an NLMSG_ERROR message with this request's number and errno 0.  acked0_somewhere is the
+   clause the checker applies to the implementation's runs outside the fault model. *)
+Theorem C08_success_only_if_acked : forall q script r rest, reply q script = (r, rest) -> check_ack r = None ->
+  acked0_somewhere q script = true.
+Proof. exact success_only_if_acked. Qed.
+Theorem C08_set_nil_only_if_acked : forall s w k v s' w' ws, cset s w k v true = (s', w', ROk, ws) ->
+  acked0_somewhere ((nseq s + 1) mod 2^32) (rscript w) = true.
+Proof. exact set_nil_only_if_acked. Qed.
+Theorem C08_rule_cmd_nil_only_if_acked : forall s w ty data s' w' ws, ack_cmd s w ty data = (s', w', None, ws) ->
+  acked0_somewhere ((nseq s + 1) mod 2^32) (rscript w) = true.
+Proof. exact ack_cmd_nil_only_if_acked. Qed.
+
 Print Assumptions C08_reply_found.
+Print Assumptions C08_success_only_if_acked.
+Print Assumptions C08_set_nil_only_if_acked.
+Print Assumptions C08_rule_cmd_nil_only_if_acked.
 Print Assumptions C08_set_verdict.
 Print Assumptions C08_delete_rule_verdict.
 Print Assumptions C08_add_rule_verdict.
